@@ -30,6 +30,8 @@ type c01Shape struct {
 	Workload bool     `json:"workload"`
 	ToIdx    int      `json:"to_idx"`
 	MultiSrc bool     `json:"multi_source_base"`
+	Async    bool     `json:"async_mode"`       // async: true, async_allowed_lag 20 s, repl_mon on (only without semi-sync)
+	MonDelay []int64  `json:"repl_mon_delay_s"` // per replica: what the repl_mon delay query answers
 }
 
 var c01Reqs = []string{"to", "from", "auto_crash", "auto_rofs", "manual_failover"}
@@ -67,6 +69,12 @@ func c01Gen(seed int64, idx int) c01Shape {
 		sh.Prio = append(sh.Prio, []int{0, 0, 5, 10}[r.Intn(4)])
 	}
 	sh.ToIdx = 1 + r.Intn(sh.N-1)
+	if !sh.SemiSync {
+		sh.Async = r.Intn(3) != 0
+	}
+	for i := 1; i < sh.N; i++ {
+		sh.MonDelay = append(sh.MonDelay, []int64{3, 19, 20, 100}[r.Intn(4)])
+	}
 	return sh
 }
 
@@ -121,6 +129,9 @@ type c01Monitor struct {
 	// split-brain tracking per instance and attempt
 	att       map[string]*c01Attempt
 	lastStart map[string]string
+	// received-but-unapplied transactions a daemon threw away on a host (RESET REPLICA) before promoting it
+	lostTail map[string]string
+	waiver   func(target string) (bool, string) // the async-mode exception of the statement, evaluated on the shape
 	// observations
 	Promotions int
 	SplitAbort int
@@ -138,7 +149,7 @@ type c01Attempt struct {
 }
 
 func newC01Monitor(sc *Scen, semi bool, w int) *c01Monitor {
-	m := &c01Monitor{sc: sc, semi: semi, w: w, activeAt: map[string][]string{}, needRead: map[string]bool{}, att: map[string]*c01Attempt{}, lastStart: map[string]string{}}
+	m := &c01Monitor{sc: sc, semi: semi, w: w, activeAt: map[string][]string{}, needRead: map[string]bool{}, att: map[string]*c01Attempt{}, lastStart: map[string]string{}, lostTail: map[string]string{}}
 	s := sc.S
 	s.OnIter(func(inst, state, next string, begin bool) {
 		m.mu.Lock()
@@ -358,6 +369,15 @@ func (m *c01Monitor) beforeStmt(w *world.World, c *world.StmtCtx) {
 	if a := m.att[inst]; a != nil && a.split && isPromotionClass(c.Class) {
 		a.promoAfter = append(a.promoAfter, c.Class+"@"+c.Host)
 	}
+	if c.Class == "reset_replica" && strings.HasPrefix(c.Caller, "mysync_") {
+		if x := w.Servers[c.Host]; x != nil {
+			if t := x.Retrieved.Minus(x.Executed); !t.Empty() {
+				m.lostTail[c.Host] = t.OneLine()
+			} else {
+				delete(m.lostTail, c.Host)
+			}
+		}
+	}
 	if c.Class != "set_writable" {
 		return
 	}
@@ -387,7 +407,22 @@ func (m *c01Monitor) beforeStmt(w *world.World, c *world.StmtCtx) {
 	}
 	inSwitch := m.att[inst] != nil
 	m.sc.Obs("promotion of %s by %s at %.3fs: active=%v quorum=%d frozen-and-contained=%v others=%v in-switch=%v", c.Host, inst, w.Now().Seconds(), A, quorum, F, notF, inSwitch)
-	if len(F) < quorum {
+	allowed, why := false, ""
+	if m.waiver != nil {
+		allowed, why = m.waiver(c.Host)
+	}
+	if t, lost := m.lostTail[c.Host]; lost {
+		// the promoted node itself had received transactions it never executed: its relay log was thrown away
+		if allowed {
+			m.sc.Cover("async-waiver-used")
+			m.sc.Obs("promotion of %s without its received tail %s is covered by the async exception: %s", c.Host, t, why)
+		} else {
+			m.sc.Violate("C01", "promotion-after-discarding-received-transactions", fmt.Sprintf("%s makes %s writable after its relay log with the received, never executed transactions %s was discarded (%s)", inst, c.Host, t, why), w.DescribeLocked())
+		}
+	}
+	if len(F) < quorum && allowed {
+		m.sc.Cover("async-waiver-used")
+	} else if len(F) < quorum {
 		m.sc.Violate("C01", "promotion-without-frozen-quorum", fmt.Sprintf("%s makes %s writable (recorded master %q) while only %d of the required %d members of the active list %v are read-only and contained in its executed set; not counted: %v",
 			inst, c.Host, master, len(F), quorum, A, notF), w.DescribeLocked())
 	}
@@ -412,6 +447,9 @@ func c01Scenario(u *Unit, name string, sh c01Shape, fault *c01Fault) (*Tracker, 
 	opts := Opts{HA: hosts, Cascade: casc, Seed: u.Seed, Workload: sh.Workload, PreConverged: true,
 		Cfg: func(h string, c *config.Config) {
 			c.SemiSync = sh.SemiSync
+			if sh.Async {
+				c.ASync, c.AsyncAllowedLag, c.ReplMon = true, 20*time.Second, true
+			}
 			c.RplSemiSyncMasterWaitForSlaveCount = sh.W
 			c.ForceSwitchover = sh.Force
 			c.FailoverDelay = 5 * time.Second
@@ -429,6 +467,26 @@ func c01Scenario(u *Unit, name string, sh c01Shape, fault *c01Fault) (*Tracker, 
 		}
 		c01ApplyHistory(s, sh, hosts)
 		mon := newC01Monitor(sc, sh.SemiSync, sh.W)
+		s.W.Lock()
+		for i, h := range hosts[1:] {
+			d := sh.MonDelay[i]
+			s.W.Servers[h].ReplMonDelay = &d
+			s.W.Servers[h].ReplMonTable = true
+		}
+		s.W.Servers[hosts[0]].ReplMonTable = true
+		s.W.Unlock()
+		mon.waiver = func(target string) (bool, string) {
+			// the request being executed (a fault may have turned a manual request into a later automatic failover)
+			sw, _ := s.Cached("switch")
+			auto := strings.Contains(sw, `"cause":"auto"`)
+			for i, h := range hosts[1:] {
+				if h == target {
+					ok := sh.Async && auto && sh.MonDelay[i] < 20
+					return ok, fmt.Sprintf("async mode %v, automatic failover %v, repl_mon delay of %s %d s, allowed lag 20 s", sh.Async, auto, h, sh.MonDelay[i])
+				}
+			}
+			return false, "target is not a replica of the shape"
+		}
 		tr = NewTracker(sc)
 		if fault != nil {
 			tr.Target, tr.Kind = &fault.B, fault.Kind
@@ -599,5 +657,5 @@ func init() {
 			}
 			return f
 		},
-		Rule: "unit = cluster shape (2-4 HA, cascade, semi-sync on/off, wait count, force_switchover, per-replica GTID history from {equal, behind, far behind, received-but-unapplied tail, gap, errant}, multi-source base, priorities) x request kind; a fault-free baseline enumerates the external call boundaries after the request, then one run per sampled (boundary x fault kind), half of the sample stratified to the freeze phase (a member other than the old master dies, fails or hangs at its first read-only / stop-IO call); non-trivial = a promotion event or a split-brain abort was observed; distinct by (n, semi-sync, request, force, fault kind, boundary class, outcome)"})
+		Rule: "unit = cluster shape (2-4 HA, cascade, semi-sync on/off, wait count, force_switchover, per-replica GTID history from {equal, behind, far behind, received-but-unapplied tail, gap, errant}, multi-source base, priorities, async mode with allowed lag 20 s and per-replica repl_mon delay {3,19,20,100} s when semi-sync is off) x request kind; a fault-free baseline enumerates the external call boundaries after the request, then one run per sampled (boundary x fault kind), half of the sample stratified to the freeze phase (a member other than the old master dies, fails or hangs at its first read-only / stop-IO call); non-trivial = a promotion event or a split-brain abort was observed; distinct by (n, semi-sync, request, force, fault kind, boundary class, outcome)"})
 }
